@@ -8,12 +8,12 @@ CONSTANTS Fmt, MaxRecords, WrapWidths
 VARIABLES lines, picks, crlf, finalnl, withHeader, phase, width
 vars == <<lines, picks, crlf, finalnl, withHeader, phase, width>>
 
-BaseFmt == IF Fmt = "bed6dot" THEN "bed6" ELSE IF Fmt = "vcfinfo" THEN "vcf" ELSE Fmt
+BaseFmt == IF Fmt = "bed6dot" THEN "bed6" ELSE IF Fmt \in {"vcfinfo", "vcfphased"} THEN "vcf" ELSE Fmt
 InteriorComments == Fmt \in {"wig", "gff"}
 IsSeqFmt == Fmt \in {"fasta", "fastq"}
 Hdr == IF IsSeqFmt THEN <<>> ELSE HeaderLines[Fmt]
 Init == /\ lines = <<>> /\ picks = <<>> /\ phase = "build"
-        /\ crlf \in BOOLEAN /\ finalnl \in BOOLEAN /\ withHeader \in (IF Hdr = <<>> THEN {FALSE} ELSE IF Fmt = "vcfinfo" THEN {TRUE} ELSE BOOLEAN)
+        /\ crlf \in BOOLEAN /\ finalnl \in BOOLEAN /\ withHeader \in (IF Hdr = <<>> THEN {FALSE} ELSE IF Fmt \in {"vcfinfo", "vcfphased"} THEN {TRUE} ELSE BOOLEAN)
         /\ width \in (IF Fmt = "fasta" THEN WrapWidths ELSE {0})
 \* sequence split into lines of `width` (the last one shorter or full)
 RECURSIVE WrapLines(_, _)
@@ -26,6 +26,7 @@ RecordLines(p) == IF Fmt = "fasta" THEN <<<<GT>> \o FastaNames[p[1]]>> \o WrapLi
 RecordMeaning(p) == IF Fmt = "fasta" THEN <<FastaNames[p[1]], FastaSeqs[p[2]]>>
                     ELSE IF Fmt = "fastq" THEN <<FastqRecords[p][1], FastqRecords[p][2], [i \in DOMAIN FastqRecords[p][4] |-> FastqRecords[p][4][i] - 33]>>
                     ELSE IF Fmt = "vcfinfo" THEN ParseVcfTyped(SampleLines[Fmt][p] \o <<LF>>, InfoDecl)[1]
+                    ELSE IF Fmt = "vcfphased" THEN ParseVcfPhased(SampleLines[Fmt][p] \o <<LF>>)[1]
                     ELSE ParseLine(BaseFmt, SampleLines[Fmt][p])
 AddRecord == /\ phase = "build" /\ Len(picks) < MaxRecords
              /\ \E p \in Picks : lines' = lines \o RecordLines(p) /\ picks' = Append(picks, p)
@@ -40,7 +41,9 @@ EOL == IF crlf THEN <<CR, LF>> ELSE <<LF>>
 AllLines == (IF withHeader THEN Hdr ELSE <<>>) \o lines
 Text == LET t == Concat([i \in DOMAIN AllLines |-> AllLines[i] \o EOL]) IN
         IF finalnl THEN t ELSE SubSeq(t, 1, Len(t) - Len(EOL))
-Expected == IF Fmt = "vcfinfo" THEN ParseVcfTyped(Text, InfoDecl) ELSE Parse(BaseFmt, Text)
+Expected == IF Fmt = "vcfinfo" THEN ParseVcfTyped(Text, InfoDecl) ELSE IF Fmt = "vcfphased" THEN ParseVcfPhased(Text) ELSE Parse(BaseFmt, Text)
+\* the phased code of a genotype determines its text
+PhasedInverse == (phase = "file" /\ Fmt = "vcfphased") => \A i \in DOMAIN Expected : \A c \in DOMAIN Expected[i].gt : PhasedText(Expected[i].phased[c]) = Expected[i].gt[c]
 \* design invariants: comment/header lines never become entries; the entries are those of the chosen sample lines, whatever
 \* the line ends, the final newline and the header are
 EntriesAreRecords == phase = "file" => /\ Len(Expected) = Len(picks)
